@@ -129,9 +129,6 @@ def bodyOf (kind : String) (conds : List Bool) : Body := fun i vs =>
     some (c, vs.map (fun v => ⟨v.e, match v.s with | n :: r => (2 * n) :: r | [] => []⟩), [⟨.i64, []⟩])
   | _ => none
 
-/-- Column `j` of the per-iteration scan slices. -/
-def column (scs : List (List RtVal)) (j : Nat) : List RtVal := scs.filterMap (fun row => row[j]?)
-
 def looprun (req : Json) : Except String Json := do
   let kind ← req.getObjValAs? String "body"
   let m ← req.getObjValAs? Nat "M"
